@@ -2597,16 +2597,21 @@ class ConstantOp(IRDLOperation):
         parser.parse_characters("(")
         value = cls.parse_value(parser)
         parser.parse_characters(")")
+        attrs = parser.parse_optional_attr_dict()
         parser.parse_characters(":")
         value_type = parser.parse_type()
-        return cls(value, value_type)
+        op = cls(value, value_type)
+        op.attributes |= attrs
+        return op
 
     def print(self, printer: Printer) -> None:
         with printer.in_parens():
-            if isa(self.value, IntegerAttr) and self.result.type == IntegerType(64):
+            # The untyped form is parsed back as a 64-bit integer.
+            if isa(self.value, IntegerAttr) and self.value.type == IntegerType(64):
                 self.value.print_without_type(printer)
             else:
                 printer.print_attribute(self.value)
+        printer.print_op_attributes(self.attributes)
         printer.print_string(" : ")
         printer.print_attribute(self.result.type)
 
